@@ -395,6 +395,10 @@ func (eng *Engine) verifyFunction(p *Pkg, key string, ct *Contract) (res *FuncRe
 			st.vars[o] = cv
 			scope[o.Name()] = cv
 			fc.paramsEntry[o.Name()] = cv
+			if fc.capturedVars == nil {
+				fc.capturedVars = map[string]types.Object{}
+			}
+			fc.capturedVars[o.Name()] = o
 			return true
 		})
 	}
@@ -467,8 +471,10 @@ func (eng *Engine) verifyFunction(p *Pkg, key string, ct *Contract) (res *FuncRe
 					vals = append(vals, Val{fc.smt.zero(r.Type()), r.Type()})
 				}
 			}
+			fc.reachCanary(o.st, decl.Body.Rbrace)
 			fc.finish(o.st, vals, false)
 		case oReturn:
+			fc.reachCanary(o.st, o.pos)
 			fc.finish(o.st, o.vals, false)
 		case oPanic:
 			fc.finish(o.st, nil, true)
@@ -498,6 +504,18 @@ func (fc *FnCtx) addAxioms() {
 	}
 	add(fc.pkg.cf, fc.pkg)
 	add(fc.eng.prelude, fc.pkg)
+}
+
+// reachCanary: one satisfiability check per path that reaches a return statement; a return statement that no path can
+// reach under the contract is reported (as a note, not as a failure): what the contract says about that exit is
+// vacuous - either the precondition excludes it on purpose, or the model of some construct has made the branch dead.
+func (fc *FnCtx) reachCanary(st *State, pos token.Pos) {
+	if !pos.IsValid() {
+		return
+	}
+	pp := fc.eng.fset.Position(pos)
+	fc.canaries = append(fc.canaries, &Obligation{Name: fmt.Sprintf("%s#reach:return@%s:%d", fc.key, shortFile(pp.Filename), pp.Line), Kind: "vacuity", Goal: "false",
+		PC: append([]string(nil), st.pc...), Vacuity: true, Pos: pp})
 }
 
 // finish: run deferred calls, then check postconditions, frame and lock discipline.
@@ -542,6 +560,16 @@ func (fc *FnCtx) checkPost(st *State, vals []Val, panicked bool) {
 	scope := map[string]Val{}
 	for k, v := range fc.paramsEntry {
 		scope[k] = v
+	}
+	// a captured variable is shared with the enclosing function: in a postcondition its name means the value the
+	// literal leaves behind (old(x) is the value it found)
+	for n, o := range fc.capturedVars {
+		if v, ok := st.vars[o]; ok {
+			if fc.isBoxed(o) {
+				v = fc.deref(st, v)
+			}
+			scope[n] = v
+		}
 	}
 	for i, r := range fc.results {
 		if i < len(vals) {
